@@ -16,7 +16,13 @@ UTC = 'impl DateTime<Utc> {'
 
 TRAITS = r'''
 // trimmed trait pair: only the associated type is needed by the functions under contract
-trait Offset: Sized + Clone {}
+trait Offset: Sized + Clone {
+    // the real trait method; its result is a FixedOffset value, whose type invariant (|offset| < 24 h, enforced by the only
+    // constructors east_opt / west_opt) is stated as the postcondition every implementation owes
+    spec fn fix_spec(&self) -> FixedOffset;
+    fn fix(&self) -> (r: FixedOffset)
+        ensures r == self.fix_spec(), offwf(r);
+}
 trait TimeZone: Sized + Clone {
     type Offset: Offset;
     fn from_offset(offset: &Self::Offset) -> Self;
@@ -27,7 +33,10 @@ trait TimeZone: Sized + Clone {
         ensures r.datetime == *utc;
 }
 #[derive(Copy, Clone)] struct Utc;
-impl Offset for Utc {}
+impl Offset for Utc {
+    spec fn fix_spec(&self) -> FixedOffset { FixedOffset { local_minus_utc: 0 } }
+    #[verifier::external_body] fn fix(&self) -> (r: FixedOffset) { unimplemented!() }
+}
 '''
 
 LEMMAS = r'''
@@ -120,6 +129,10 @@ impl<Tz: TimeZone> Clone for DateTime<Tz> where <Tz as TimeZone>::Offset: Clone 
         u.prove(FN, n, IMPL, cid='NaiveDateTime::' + n, subst=sent)
     u.prove(FN, 'add', 'impl Add<TimeDelta> for NaiveDateTime {', cid='NaiveDateTime::Add__add', rename='Add__add')
     u.prove(FN, 'sub', 'impl Sub<TimeDelta> for NaiveDateTime {', cid='NaiveDateTime::Sub__sub', rename='Sub__sub')
+    u.prove(FN, 'add_assign', 'impl AddAssign<TimeDelta> for NaiveDateTime {', cid='NaiveDateTime::AddAssign__add_assign', rename='AddAssign__add_assign',
+            subst=[('self.add(rhs)', 'self.Add__add(rhs)', 'R6 trait call re-pointed')])
+    u.prove(FN, 'sub_assign', 'impl SubAssign<TimeDelta> for NaiveDateTime {', cid='NaiveDateTime::SubAssign__sub_assign', rename='SubAssign__sub_assign',
+            subst=[('self.sub(rhs)', 'self.Sub__sub(rhs)', 'R6 trait call re-pointed')])
     u.prove(FN, 'sub', 'impl Sub<NaiveDateTime> for NaiveDateTime {', cid='NaiveDateTime::Sub_NaiveDateTime__sub', rename='Sub_NaiveDateTime__sub')
     u.raw('}\nimpl<Tz: TimeZone> DateTime<Tz> {')
     for n in ['from_naive_utc_and_offset', 'naive_utc', 'timestamp', 'timestamp_subsec_nanos', 'timestamp_subsec_millis', 'timestamp_subsec_micros',
@@ -131,6 +144,16 @@ impl<Tz: TimeZone> Clone for DateTime<Tz> where <Tz as TimeZone>::Offset: Clone 
     u.prove(FDT, 'to_utc', GEN, cid='DateTime::to_utc')
     u.prove(FDT, 'checked_add_signed', GEN, cid='DateTime::checked_add_signed')
     u.prove(FDT, 'checked_sub_signed', GEN, cid='DateTime::checked_sub_signed')
+    u.prove(FDT, 'overflowing_naive_local', GEN, cid='DateTime::overflowing_naive_local')
+    u.prove(FDT, 'signed_duration_since', GEN, cid='DateTime::signed_duration_since',
+            replace_sig='fn signed_duration_since<Tz2: TimeZone>(self, rhs: &DateTime<Tz2>) -> TimeDelta',
+            subst=[('rhs.borrow().datetime', 'rhs.datetime', 'R6 `impl Borrow<DateTime<Tz2>>` argument taken as the borrowed `&DateTime<Tz2>` it yields')])
+    u.prove(FDT, 'sub', 'impl<Tz: TimeZone> Sub<DateTime<Tz>> for DateTime<Tz> {', cid='DateTime::Sub_DateTime__sub', rename='Sub_DateTime__sub',
+            subst=[('self.signed_duration_since(rhs)', 'self.signed_duration_since(&rhs)', 'R6 by-value argument borrowed for the `impl Borrow` parameter')])
+    u.prove(FDT, 'add_assign', 'impl<Tz: TimeZone> AddAssign<TimeDelta> for DateTime<Tz> {', cid='DateTime::AddAssign__add_assign', rename='AddAssign__add_assign')
+    u.prove(FDT, 'sub_assign', 'impl<Tz: TimeZone> SubAssign<TimeDelta> for DateTime<Tz> {', cid='DateTime::SubAssign__sub_assign', rename='SubAssign__sub_assign')
+    u.prove(FDT, 'add', 'impl<Tz: TimeZone> Add<TimeDelta> for DateTime<Tz> {', cid='DateTime::Add__add', rename='Add__add')
+    u.prove(FDT, 'sub', 'impl<Tz: TimeZone> Sub<TimeDelta> for DateTime<Tz> {', cid='DateTime::Sub__sub', rename='Sub__sub')
     u.raw('}')
     u.prove('src/offset/mod.rs', 'from_utc_datetime', 'pub trait TimeZone: Sized + Clone {', cid='TimeZone::from_utc_datetime', rename='TimeZone__from_utc_datetime',
             replace_sig='fn TimeZone__from_utc_datetime<Tz: TimeZone>(this: &Tz, utc: &NaiveDateTime) -> DateTime<Tz>',
